@@ -2594,7 +2594,7 @@ ITEMS: List[Item] = [
     Item("IndexMargins", GENERAL, ["C16"], b_index_margins, extra_modules=[PROX]),
     Item("CropPipeline", GENERAL, ["C07", "C04", "C14", "C18"], b_crop_pipeline, deps=["CropHelpers"]),
     Item("LineDataCache", LINEDATA, ["C08", "C15", "C11"], b_line_data, extra_modules=[GENERAL]),
-    Item("ZCoordinates", GENERAL, ["C03", "C07", "C09", "C11", "C01", "C04"], b_z_coordinates),
+    Item("ZCoordinates", GENERAL, ["C03", "C07", "C09", "C11", "C01", "C04", "C02"], b_z_coordinates),
     Item("ValidationCaches", TVAL, ["C02", "C13"], b_validation_caches),
     Item("SampleCell", GRID, ["C18"], b_sample_cell),
     Item("UnitVectorCompare", GENERAL, ["C10"], b_unit_vector_compare),
